@@ -122,9 +122,15 @@ def gen_multi(rng, tier):
         if "head" in a or "head" in b:
             a["head"] = b["head"] = a.get("head") or b.get("head")
         shared = (i, j)
+    if mode == "descriptor" and any("sparse" in e for e in exts) and rng.chance(0.35):
+        # a snapshot (delta) disk split over several extents: what an extent does not hold comes from the parent disk, at
+        # the sector of the DISK (not of the extent)
+        c["parent"] = {"salt": rng.randrange(1 << 30), "cid": "%08x" % rng.randrange(1, 0xFFFFFFFF)}
     if mode == "descriptor":
         eol = rng.pick(["\n", "\n", "\r\n"])
-        lines = ["# Disk DescriptorFile", "version=1", "CID=" + "%08x" % rng.randrange(1 << 32), "parentCID=ffffffff",
+        lines = ["# Disk DescriptorFile", "version=1", "CID=" + "%08x" % rng.randrange(1 << 32),
+                 "parentCID=" + (c["parent"]["cid"] if c.get("parent") else "ffffffff")] + \
+                ([rng.pick(['parentFileNameHint="parent disk.vmdk"', 'parentFileNameHint = "parent disk.vmdk"'])] if c.get("parent") else []) + [
                  rng.pick(['createType="twoGbMaxExtentSparse"', 'createType = "vmfs"', 'createType="custom"']), "",
                  "# Extent description"]
         for e in exts:
@@ -181,6 +187,11 @@ def extent_file(e):
     return core.SparseFile(e["fsize"], {0: bytes.fromhex(e["head"])[:e["fsize"]]} if e.get("head") else {}, salt=e["salt"]), {}
 
 
+def parent_file(case):
+    total = sum(e["sectors"] for e in case["extents"])
+    return core.SparseFile(total * SECTOR, {}, salt=case["parent"]["salt"])
+
+
 def spec_range(total_sectors, kind, a, b):
     size = total_sectors * SECTOR
     if kind == "sectors":
@@ -202,11 +213,12 @@ class MultiSuite(Suite):
     preamble = (c02.VmdkSuite.preamble.replace("Model.Vmdk.", "Model.Vmdk Model.VmdkDesc.") +
                 "Definition wk (k : wkind) := match k with WSparse => 1 | WRaw => 0 end.\n"
                 "Definition wired_out (d : descriptor) := map (fun w => let '(k, fn, n, st) := w in (wk k, fn, n, st)) (wired d).\n"
-                "Definition intent_x (it : Z * vfile * Z * Z) : res extent := let '(k, f, size, st) := it in "
-                "if k =? 1 then (do sp <- open_sparse f; Ok (XSparse f sp false)) else Ok (XRaw size st).\n"
-                "Definition run_case (files : list (str * vfile)) (text : option str) (intent : list (Z * vfile * Z * Z)) "
+                "Definition intent_x (hp : bool) (it : Z * vfile * Z * Z) : res extent := let '(k, f, size, st) := it in "
+                "if k =? 1 then (do sp <- open_sparse f; Ok (XSparse f sp hp)) else Ok (XRaw size st).\n"
+                "Definition run_case (hp : bool) (files : list (str * vfile)) (text : option str) (intent0 : list (Z * vfile * Z * Z)) "
                 "(reqs : list (Z * Z * Z * Z * Z)) :=\n"
-                "  let vm := match text with Some t => assemble files t | None => (do xs <- all_ok (map intent_x intent); Ok (mk_vmdk xs)) end in\n"
+                "  let intent_x := intent_x hp in let intent := intent0 in\n"
+                "  let vm := match text with Some t => assemble_p files t | None => (do xs <- all_ok (map intent_x intent); Ok (mk_vmdk xs)) end in\n"
                 "  let dout := match text with Some t => let d := parse_descriptor t in (d_sectors d, wired_out d) | None => (0, []) end in\n"
                 "  match all_ok (map intent_x intent) with\n"
                 "  | Ok xs => let vi := mk_vmdk xs in\n"
@@ -234,6 +246,13 @@ class MultiSuite(Suite):
                         fh, _ = extent_file(e)
                         with open(os.path.join(d, e["name"]), "wb") as w:
                             w.write(fh.content(0, fh.size))
+                    if case.get("parent"):
+                        pf = parent_file(case)
+                        with open(os.path.join(d, "parent disk-flat.vmdk"), "wb") as w:
+                            w.write(pf.content(0, pf.size))
+                        with open(os.path.join(d, "parent disk.vmdk"), "w") as w:
+                            w.write('# Disk DescriptorFile\nversion=1\nCID=%s\nparentCID=ffffffff\ncreateType="monolithicFlat"\n'
+                                    'RW %d FLAT "parent disk-flat.vmdk" 0\n' % (case["parent"]["cid"], pf.size // SECTOR))
                     p = os.path.join(d, case["desc_name"])
                     with open(p, "wb") as w:
                         w.write(case["text"].encode())
@@ -302,7 +321,8 @@ class MultiSuite(Suite):
         else:
             files = ""
             text = "None"
-        return f"{lets}run_case [{files}] {text} [{intent}] [" + "; ".join(reqs) + "]"
+        hp = "true" if case.get("parent") else "false"
+        return f"{lets}run_case {hp} [{files}] {text} [{intent}] [" + "; ".join(reqs) + "]"
 
     # -- judge
     def judge(self, case, impl_res, coq_val):
@@ -354,13 +374,16 @@ class MultiSuite(Suite):
             fs.append(Finding("impl_vs_model", f"model size/sectors {mres[1][1:]} vs implementation "
                               f"{impl_res['size']}/{impl_res['sector_count']}", f"vmdk:{mode}:size:model"))
 
+        pfile = parent_file(case) if case.get("parent") else None
+
         def mat_with(flist):
             def mat(p):
                 out = []
                 for it in p:
                     _, i, seg = it
                     fh, infl = flist[i]
-                    out.append(core.materialise([tuple(seg)], file=fh, infl=lambda d, k, n, infl=infl: infl[d][0][k:k + n]))
+                    out.append(core.materialise([tuple(seg)], file=fh, infl=lambda d, k, n, infl=infl: infl[d][0][k:k + n],
+                                                parent=(lambda o, n: pfile.content(o, n).ljust(n, b"\0")) if pfile else None))
                 return b"".join(out)
             return mat
 
@@ -395,7 +418,7 @@ class MultiSuite(Suite):
         return {"mode": case["mode"], "n_extents": len(exts), "types": ",".join(sorted({e["type"] for e in exts})),
                 "nonzero_start": any((e.get("start") or 0) > 0 for e in exts),
                 "odd_names": sum(1 for e in exts if any(ord(ch) > 127 or ch in ' "\\' for ch in e["name"])),
-                "tail_fields": any(e.get("tail") for e in exts)}
+                "tail_fields": any(e.get("tail") for e in exts), "parent": bool(case.get("parent"))}
 
 
 # ----------------------------------------------------------------------------- parse-only suite
@@ -657,4 +680,106 @@ class StorageSuite(Suite):
 
 
 # hdd_split: HDD.open() over 2..4 storages, each with its own snapshot chain (assembly + independence of the storages)
-SUITES = {"multi": MultiSuite(), "parse": ParseSuite(), "storage": StorageSuite(), "hdd_split": c06.HddSplit()}
+class LongDescriptor(Suite):
+    """Descriptors of any length: several hundred extent lines (a disk split into 2 GiB pieces has one per piece; raw device
+    mappings list partitions), long file names, long comment or data-base sections in front of or between the extent
+    lines.  Specification only (a python oracle of the concatenation): the model's text literal would be 100 KB."""
+    name = "long_desc"
+    shard = 4
+    per_case_timeout = 120.0
+
+    def generate(self, rng, tier):
+        out = []
+        for k in range(8 if tier == "thorough" else 3):
+            shape = ["many", "padded-front", "padded-middle", "long-names"][k % 4] if tier == "thorough" else \
+                rng.pick(["many", "padded-front", "padded-middle", "long-names"])
+            n = rng.randint(300, 1500) if shape == "many" else rng.randint(3, 40)
+            name = ("piece " + "x" * rng.randint(60, 200) + ".vmdk") if shape == "long-names" else "d-flat.vmdk"
+            if shape == "long-names":
+                n = rng.randint(300, 700)
+            exts, start = [], 0
+            for _ in range(n):
+                k2 = rng.randint(1, 4)
+                gap = rng.pick([0, 0, 1, 5])
+                exts.append([k2, start + gap])
+                start += gap + k2
+            pad = rng.randint(66000, 140000) if shape.startswith("padded") else 0
+            out.append({"shape": shape, "name": name, "extents": exts, "pad": pad, "fsize": start * SECTOR,
+                        "salt": rng.randrange(1 << 30), "eol": rng.pick(["\n", "\r\n"])})
+        return out
+
+    def text(self, case):
+        padding = []
+        while sum(len(x) + 1 for x in padding) < case["pad"]:
+            padding.append("# " + "-" * 70)
+        head = ["# Disk DescriptorFile", "version=1", "CID=fffffffe", "parentCID=ffffffff", 'createType="custom"', ""]
+        lines = ['RW %d FLAT "%s" %d' % (k, case["name"], st) for k, st in case["extents"]]
+        if case["shape"] == "padded-front":
+            body = head + padding + lines
+        elif case["shape"] == "padded-middle":
+            h = len(lines) // 2
+            body = head + lines[:h] + padding + lines[h:]
+        else:
+            body = head + lines
+        body += ["", "# The Disk Data Base", "#DDB", 'ddb.adapterType = "ide"']
+        return case["eol"].join(body) + case["eol"]
+
+    def impl(self, case):
+        from pathlib import Path
+        from dissect.hypervisor.disk.vmdk import VMDK
+        d = os.path.join(SCRATCH, f"{os.getpid()}")
+        shutil.rmtree(d, ignore_errors=True)
+        os.makedirs(d)
+        try:
+            fh = core.SparseFile(case["fsize"], {}, salt=case["salt"])
+            with open(os.path.join(d, case["name"]), "wb") as w:
+                w.write(fh.content(0, fh.size))
+            p = os.path.join(d, "disk.vmdk")
+            with open(p, "wb") as w:
+                w.write(self.text(case).encode())
+            try:
+                v = VMDK(Path(p))
+            except Exception as e:  # noqa: BLE001
+                return {"open": f"{type(e).__name__}: {str(e)[:100]}"}
+            out = {"open": None, "size": int(v.size), "disks": len(v.disks), "text_len": len(self.text(case).encode())}
+            exp = b"".join(fh.content(st * SECTOR, k * SECTOR) for k, st in case["extents"])
+            v.seek(0)
+            got = v.read()
+            out["whole"] = None if got == exp else [core.first_diff(got, exp), len(got), len(exp)]
+            tail = v.read_sectors(len(exp) // SECTOR - 1, 1) if exp else b""
+            out["tail"] = tail == exp[-SECTOR:]
+            for x in v.disks:
+                try:
+                    x.fh.close()
+                except Exception:  # noqa: BLE001
+                    pass
+            return out
+        finally:
+            shutil.rmtree(d, ignore_errors=True)
+
+    def judge(self, case, impl_res, coq_val):
+        n = len(case["extents"])
+        total = sum(k for k, _ in case["extents"]) * SECTOR
+        label = f"{case['shape']} descriptor with {n} extents"
+        if impl_res.get("outcome"):
+            return [Finding("impl_fault", f"{label}: implementation {impl_res['outcome']}", "vmdk:long:" + impl_res["outcome"])]
+        if impl_res["open"] is not None:
+            return [Finding("impl_vs_spec", f"{label}: open failed: {impl_res['open']}", "vmdk:long:open")]
+        fs = []
+        if impl_res["disks"] != n or impl_res["size"] != total:
+            fs.append(Finding("impl_vs_spec", f"{label} ({impl_res['text_len']} bytes of text): {impl_res['disks']} disks assembled, "
+                              f"size {impl_res['size']} (the extents sum to {total})", "vmdk:long:dropped"))
+        elif impl_res["whole"] is not None or not impl_res["tail"]:
+            fs.append(Finding("impl_vs_spec", f"{label}: reading the whole disk differs from the concatenation of the extents "
+                              f"({impl_res['whole']})", "vmdk:long:bytes"))
+        return fs
+
+    def nontrivial(self, case, impl_res, coq_val):
+        return core.sha(core.jdump(case).encode())
+
+    def dist(self, case):
+        return {"shape": case["shape"], "extents": len(case["extents"]) // 100 * 100}
+
+
+
+SUITES = {"multi": MultiSuite(), "long_desc": LongDescriptor(), "parse": ParseSuite(), "storage": StorageSuite(), "hdd_split": c06.HddSplit()}
